@@ -24,7 +24,7 @@ from .common import (AnalysisError, Finding, RuleResult, ntext, walk_no_nested, 
 RULE = 'R14'
 TEXT = ('for each of the 15 orderings of (lb, ub, 0, +-inf) the LP dual construction (masks, '
         'appended bound rows, sign treatment of the dual rows) represents exactly [lb, ub]')
-P = {'props': ['C08', 'C01']}
+P = {'props': ['C08', 'C01', 'C15']}
 INF = float('inf')
 
 
@@ -79,10 +79,9 @@ def eval_val(e, lb, ub):
 
 def extract(repo):
     fi = repo.func('lp.Model.do_math')
-    dual = None
-    for st in body_stmts(fi):
-        if isinstance(st, ast.If) and ntext(st.test) == 'primal':
-            dual = st.orelse
+    from .common import primal_dual_arms
+    arms = primal_dual_arms(fi)
+    dual = arms[1] if arms else None
     if not dual:
         raise AnalysisError('lp.Model.do_math: dual branch not found')
     mod = ast.Module(body=dual, type_ignores=[])
@@ -203,8 +202,10 @@ def extract(repo):
             raise AnalysisError('R14: block for %s not fully interpreted (coef=%s rhs=%s sense=%s)'
                                 % (mask, coef, rhs, sense))
         blocks.append({'mask': mask, 'coef': coef, 'rhs': rhs, 'sense': sense, 'node': n})
-    if len(blocks) < 3:
+    if len(blocks) < 2:
         raise AnalysisError('lp.Model.do_math: only %d appended bound-row blocks found' % len(blocks))
+    # (with the upper- and lower-bound blocks recognised, a missing block -- e.g. the equality rows of variables fixed
+    #  by their bounds -- is a fact about the construction: the case analysis below names the patterns it breaks)
     free_mask = neg_mask = None
     for n in ast.walk(mod):
         if isinstance(n, ast.Assign) and isinstance(n.targets[0], ast.Subscript):
